@@ -1,6 +1,6 @@
 ----------------------------- MODULE Export_C02 -----------------------------
 EXTENDS U_C02, Json, IOUtils
-ASSUME JsonSerialize(IOEnv.JASM_OUT, Universe)
+ASSUME JsonSerialize(IOEnv.JASM_OUT, [m |-> Universe, f |-> UniverseM])
 VARIABLE x
 Init == x = 0
 Next == x' = x
